@@ -286,8 +286,10 @@ def run_property(pid, tier, seed, jobs=None, max_report=40):
     }
     ev = {'property_id': pid, 'tier': tier, 'seed': seed, 'level': prop.LEVEL, 'coverage': cov,
           'assumptions': list(prop.ASSUMPTIONS), 'wall_s': round(wall, 2), 'violations': len(unknown_lines)}
-    os.makedirs(os.path.join(VERIF, 'evidence'), exist_ok=True)
-    with open(os.path.join(VERIF, 'evidence', pid + '.json'), 'w') as f:
+    # experiments against modified trees (selftest/trypatch.py, mutants.py) redirect the evidence so that the committed files stay those of /repo
+    evdir = os.environ.get('VERIF_EVIDENCE_DIR') or os.path.join(VERIF, 'evidence')
+    os.makedirs(evdir, exist_ok=True)
+    with open(os.path.join(evdir, pid + '.json'), 'w') as f:
         json.dump(ev, f, indent=1, default=str)
     print('%s tier=%s seed=%d states=%d transitions=%d traces=%d outcomes=%d rejected=%d units=%d wall=%.1fs'
           % (pid, tier, seed, cov['states'], cov['transitions'], cov['traces_validated_against_impl'], n_out,
